@@ -61,6 +61,8 @@ pub enum Error {
     NotATag(u64, ciborium::Value),
     #[error(transparent)]
     OutOfRange(#[from] time::error::ComponentRange),
+    #[error("The date is out of range when expressed in UTC")]
+    UtcOutOfRange,
     #[error("Failed to format date string as rfc3339 date: {0}")]
     UnableToFormatDate(#[from] FormatError),
     #[error("Failed to parse date string as rfc3339 date: {0}")]
@@ -83,7 +85,8 @@ impl TryFrom<ValidityInfo> for ciborium::Value {
                     Box::new(ciborium::Value::Text(
                         $date
                             .replace_millisecond(0)?
-                            .to_offset(UtcOffset::UTC)
+                            .checked_to_offset(UtcOffset::UTC)
+                            .ok_or(Error::UtcOutOfRange)?
                             .format(&Rfc3339)?,
                     )),
                 );
